@@ -98,6 +98,9 @@ func genC03(r *Rng) *C03Case {
 			g.feat["cycle"], g.feat["assign"], g.feat["capture"], g.feat["nest"] = true, true, true, true
 		}
 		t := g.Template(cs.Envs[0])
+		if focus != nil && i < 2 {
+			t = g.Sweep(cs.Envs[0], focus, r.Range(5, 12)) // two flat sweeps of the focus filters lead the pool
+		}
 		if i > 0 && r.Chance(0.3) {
 			t = g.Sibling(cs.Trees[r.Intn(i)], cs.Envs[0]) // same inputs and filters as an earlier template, other arguments
 		}
